@@ -31,6 +31,10 @@ claimed = {
          "trace validation + crash-point enumeration against SimpleSpec (TLC)", "5 C17"),
  "C18": ("model_checking", "KvsSpec.tla: multi-put installs all pairs or none (later pairs of a key win), durable on return, get returns the latest put; sequences over the key-range boundaries with 1..12 pairs per put and overlapping keys, restarts, and every crash point (plus loss sets) of the disk stream are validated by TLC (recovered store = state after k puts, acked <= k <= invoked).",
          "trace validation + crash-point enumeration against KvsSpec (TLC)", "5 C18"),
+ "C15": ("model_checking", "Layout.tla states super.go/markAlloc's arithmetic as operators of the disk size; Apalache proves the layout invariant (regions ordered, disjoint, inside the disk, bitmap covers the disk, the tail marking starts exactly at the first block beyond the disk) for ALL sizes up to 10^9 symbolically and TLC checks it on every size up to 3*32768+2000. Conformance: the real MakeNfs formats a disk of every size in a dense range (thorough: every size from 1530 to 100304; quick: all sizes around every boundary plus 300 seeded sizes); FsStruct (layout, metadata and beyond-disk bits marked, data-region bits = blocks owned, inode bitmap = {0,1} + live) is evaluated by TLC on each decoded image; accepted sizes must form an upper segment; selected sizes are filled completely through WRITE/CREATE (every data-region bit must end up set, nothing outside), emptied, and the free counts must return.",
+         "Layout.tla (Apalache proof + TLC) and FsStruct predicates on real mkfs images for a dense range of sizes; fill/empty runs", "5 C15"),
+ "C19": ("model_checking", "NfsSpec binds name_max, wtmax and maxfilesize from the FSINFO/PATHCONF replies of the run itself and requires: names up to name_max creatable, longer refused; writes up to wtmax accepted in full or short but not refused, offsets+counts and SETATTR sizes up to maxfilesize accepted and readable back, beyond refused without effect. Directed probes step through limit-1/limit/limit+1/2^64-1 for every limit and a 'limits' generator profile mixes them into random sequences on disks where space is not the limit; TLC validates every reply, dump and restart.",
+         "trace validation against NfsSpec limit rules bound from the server's own FSINFO/PATHCONF replies", "5 C19"),
 }
 checks = []
 for pid, (cat, text, tech, ref) in claimed.items():
